@@ -2,7 +2,7 @@
 import os
 import sys
 sys.path.insert(0, os.path.dirname(__file__))
-from common import BASE_ASSUMPTIONS  # noqa: E402
+from common import BASE_ASSUMPTIONS, laws1, laws2  # noqa: E402
 
 RULE = ("MaskLaw / LenOK of RollKernels.tla and MaskLaw2 / LenOK2 of RollKernels2.tla over every null pattern (alphabet "
         "{0,1,NULL}), every length 0..L incl. empty and len < w, every window and min_periods incl. omitted; the null "
@@ -16,8 +16,8 @@ def run(ctx):
     r2 = ctx.tlc("mask2", "MCRoll2", "MCRoll2_mask.cfg" if q else "MCRoll2_mask_thorough.cfg", workers=12, timeout=3000)
     binp = ctx.build("tvh-roll")
     extra = [] if q else ["--full"]
-    ctx.harness("mask1", binp, ["replay-roll1", "--mode", "mask", "--in", r1["emitted"]] + extra)
-    ctx.harness("mask2", binp, ["replay-roll2", "--mode", "mask", "--in", r2["emitted"]] + extra)
+    ctx.harness("mask1", binp, ["replay-roll1", "--mode", "mask", "--in", r1["emitted"]] + extra + laws1(ctx))
+    ctx.harness("mask2", binp, ["replay-roll2", "--mode", "mask", "--in", r2["emitted"]] + extra + laws2(ctx))
     # the traces bind the mask at every step of long histories as well
     ctx.record_and_trace("roll", binp, ["record-roll1", "--seed", str(ctx.seed * 100 + 5), "--runs", "3", "--steps",
                                         "200" if q else "1500"], "TraceRoll", 3)
